@@ -24,7 +24,7 @@ Obs(lbl, who, A) == IsA(lbl) /\ Ev.who = who /\ A /\ Adv
 
 SenderEv(s) ==
   \/ Obs("obs.send_begin", s, SBegin(s) /\ sk'[s] = Ev.k)
-  \/ Int("send.status", s, SStatus(s) /\ (Strict => Ev.d = status))
+  \/ Int("send.status", s, SStatus(s) /\ (Strict => (Ev.d >= Draining) = (status >= Draining)))
   \/ Int("adm.iter", s, SAdmLoad(s) \/ SAdmRetry(s))
   \/ Int("send.admit", s, SAdmit(s) /\ (Strict => (Ev.d = 1) = (spc'[s] = "admitted")))
   \/ Int("send.enq", s, SEnqueue(s))
